@@ -45,3 +45,31 @@ Definition dispatch_src_Dm (sa sb ne : bool) : nat := (if (sa && sb) then 0%nat 
 Definition dispatch_src_Da (sa sb ne : bool) : nat := (if (sa && sb) then 0%nat else if ((negb sa) && sb) then 1%nat else if (sa && (negb sb)) then 2%nat else if ((negb sa) && (negb sb)) then (if ne then 4%nat else 3%nat) else 4%nat)%bool.
 Definition dispatch_src_Dl (sa sb ne : bool) : nat := (if (sa && sb) then 0%nat else if ((negb sa) && sb) then 1%nat else if (sa && (negb sb)) then 2%nat else if ((negb sa) && (negb sb)) then (if ne then 4%nat else 3%nat) else 4%nat)%bool.
 Definition dispatch_src_sigmacritinv (sa sb ne : bool) : nat := (if (sa && sb) then 0%nat else if ((negb sa) && sb) then 1%nat else if (sa && (negb sb)) then 2%nat else if ((negb sa) && (negb sb)) then (if ne then 4%nat else 3%nat) else 4%nat)%bool.
+(* cosmolib_pywrap.c, translated: index of the C function called (0 ez_inverse, 1 Dc, 2 Dm, 3 Da, 4 Dl, 5 dV, 6 V,
+   7 scinv, 8 ez_inverse_integral), arg1 read as arg1[i], arg2 read as arg2[i], n = size of arg1, arguments in order *)
+Definition SCALAR_Dc : nat * bool := (1%nat, true).
+Definition WRAP_Dc_vec1 : nat * bool * bool * bool * bool := (1%nat, true, false, true, true).
+Definition WRAP_Dc_vec2 : nat * bool * bool * bool * bool := (1%nat, false, true, false, true).
+Definition WRAP_Dc_2vec : nat * bool * bool * bool * bool := (1%nat, true, true, true, true).
+Definition SCALAR_Dm : nat * bool := (2%nat, true).
+Definition WRAP_Dm_vec1 : nat * bool * bool * bool * bool := (2%nat, true, false, true, true).
+Definition WRAP_Dm_vec2 : nat * bool * bool * bool * bool := (2%nat, false, true, false, true).
+Definition WRAP_Dm_2vec : nat * bool * bool * bool * bool := (2%nat, true, true, true, true).
+Definition SCALAR_Da : nat * bool := (3%nat, true).
+Definition WRAP_Da_vec1 : nat * bool * bool * bool * bool := (3%nat, true, false, true, true).
+Definition WRAP_Da_vec2 : nat * bool * bool * bool * bool := (3%nat, false, true, false, true).
+Definition WRAP_Da_2vec : nat * bool * bool * bool * bool := (3%nat, true, true, true, true).
+Definition SCALAR_Dl : nat * bool := (4%nat, true).
+Definition WRAP_Dl_vec1 : nat * bool * bool * bool * bool := (4%nat, true, false, true, true).
+Definition WRAP_Dl_vec2 : nat * bool * bool * bool * bool := (4%nat, false, true, false, true).
+Definition WRAP_Dl_2vec : nat * bool * bool * bool * bool := (4%nat, true, true, true, true).
+Definition SCALAR_scinv : nat * bool := (7%nat, true).
+Definition WRAP_scinv_vec1 : nat * bool * bool * bool * bool := (7%nat, true, false, true, true).
+Definition WRAP_scinv_vec2 : nat * bool * bool * bool * bool := (7%nat, false, true, false, true).
+Definition WRAP_scinv_2vec : nat * bool * bool * bool * bool := (7%nat, true, true, true, true).
+Definition SCALAR_ez_inverse : nat * bool := (0%nat, true).
+Definition WRAP1_ez_inverse_vec : nat * bool := (0%nat, true).
+Definition SCALAR_dV : nat * bool := (5%nat, true).
+Definition WRAP1_dV_vec : nat * bool := (5%nat, true).
+Definition SCALAR_V : nat * bool := (6%nat, true).
+Definition SCALAR_ez_inverse_integral : nat * bool := (8%nat, true).
